@@ -481,10 +481,8 @@ class Sym:
     def __ge__(self, o): return self._cmp_ord(o, True, '<=')
 
     def __hash__(self):
-        # constants hash like the number they equal (they may sit next to plain ints in dicts/sets); every
-        # non-constant scalar gets the same hash so that hashed containers fall back to __eq__, i.e. to branching
-        if self.u is None and pis_const(self.t):
-            return hash(pcval(self.t))
+        # every symbolic scalar (constant or not) gets the same hash so that hashed containers fall back to __eq__,
+        # i.e. to branching.  Harnesses never mix plain ints and Syms as keys of one container.
         return 7
 
     def __bool__(self):
